@@ -275,6 +275,18 @@ def pub_fields(text, log):
     return text[:open_i + 1] + ','.join(new_parts) + text[close:]
 
 
+def raw_idents(text, log):
+    """T11: raw identifiers `r#type` are alpha-renamed to `type_raw` (Verus 0.2026.09.13 crashes in model
+    extraction on SMT symbols derived from raw identifiers)."""
+    names = set(re.findall(r'\br#([A-Za-z_]\w*)', text))
+    for nme in names:
+        if re.search(r'\b%s_raw\b' % nme, text):
+            raise AnchorLoss('raw identifier rename collides: %s_raw' % nme)
+        text = re.sub(r'\br#%s\b' % nme, nme + '_raw', text)
+        log.append('T11 raw identifier r#%s -> %s_raw' % (nme, nme))
+    return text
+
+
 def name_return(sig, log, rname='r'):
     """T1: `-> T` => `-> (r: T)` on a function signature (text up to, excluding, the body brace)."""
     # find the last '->' at bracket depth 0
@@ -554,6 +566,7 @@ def process_fn(tl, i, d, arg, out, unit):
     raw_body = body
     body = rewrite_macros(body, log)
     body = unreachable_msgs(body, log)
+    body = raw_idents(body, log)
     for k, a, ls in sections:
         if k == 'subst':
             # //@ subst <from> => <to>  : type-level substitution, logged (T5)
@@ -565,6 +578,18 @@ def process_fn(tl, i, d, arg, out, unit):
             sig2 = sig2.replace(a1, b1)
             log.append('T5 subst `%s` -> `%s`' % (a1, b1))
 
+    for k, a, ls in sections:
+        if k == 'desugar-ops':
+            # T10: `x OP y` over the listed `&BigInt` identifiers -> the trait call it desugars to (Verus 0.2026.09.13
+            # hits `codegen_select_candidate failed` on operator syntax over reference operands).
+            names = '|'.join(re.escape(x) for x in a.split())
+            opmap = {'+': 'core::ops::Add::add', '-': 'core::ops::Sub::sub', '*': 'core::ops::Mul::mul'}
+            def _ds(m):
+                return '%s(%s, %s)' % (opmap[m.group(2)], m.group(1), m.group(3))
+            body2 = re.sub(r'(?<![\w.*&])(%s)\s*([+\-*])\s*(%s)(?![\w.(\[])' % (names, names), _ds, body)
+            if body2 != body:
+                log.append('T10 `a OP b` on &BigInt -> core::ops::<Trait>::<method>(a, b)')
+                body = body2
     # ---- insertions into body (compute positions on the *current* body text)
     inserts = []  # (pos, text, tag)
     loops = rs.find_loops(body, 0, len(body))
@@ -623,12 +648,12 @@ def process_fn(tl, i, d, arg, out, unit):
                 break
             if not placed:
                 out.lost_hints.append({'fn': qual, 'anchor': a})
-        elif k in ('spec', 'arm-pattern', 'wrap', 'subst', 'name'):
+        elif k in ('spec', 'arm-pattern', 'wrap', 'subst', 'name', 'desugar-ops'):
             pass
         else:
             raise AnchorLoss('unknown section %s in %s' % (k, qual))
 
-    spec_txt = '\n'.join(sections[0][2]).rstrip()
+    spec_txt = '\n'.join('\n'.join(ls) for k, a, ls in sections if k == 'spec').strip('\n')
     for k, a, ls in sections:
         if k == 'name':
             qual = a
